@@ -143,10 +143,14 @@ def run(ctx):
             earlier = root.copy()
             ids_before |= {n.id for n in walk(earlier)}
             KEEP.append(earlier)
-        cp = root.copy()
-        after_orig = otree(root, tagmap)
-        copy_t = otree(cp, tagmap)
         case = {"tree": before}
+        try:
+            cp = root.copy()
+            after_orig = otree(root, tagmap)
+            copy_t = otree(cp, tagmap)
+        except RecursionError:
+            fails.append({"case": case, "what": "copy() recursed without end or returned a structure that contains itself"})
+            continue
         dist["sizes"] += sum(1 for _ in walk(root))
         # --- oracle
         what = None
